@@ -191,6 +191,21 @@ pub fn suite_group(ctx: &mut Ctx) {
     if ctx.take() {
         huge_grouping_case(ctx);
     }
+    // ASTRONOMIC numbers: op lists are plain data, so radii and equal runs around 2^31, 2^32 and 2^40 cost nothing to
+    // group (a clamp, a narrowing cast or 32-bit arithmetic anywhere in the grouping shows only here)
+    for &big in &[(1usize << 31) - 1, 1 << 31, (1 << 32) - 2, (1 << 32) - 1, 1 << 32, (1 << 33) + 5, 1 << 40] {
+        for &n in &[big - 1, big, big / 2, big / 2 + 1, big * 2, 3] {
+            if !ctx.take() {
+                continue;
+            }
+            for &l in &[big, 2 * n, 2 * n + 1, n.saturating_sub(1).max(1), n + 1] {
+                let runs = [(0u8, l, 0usize), (1, 2, 0), (0, l, 0), (2, 0, 3), (0, l, 0)];
+                check_group(ctx, &build(&runs), n);
+                check_group(ctx, &build_at(&runs, 7, big), n);
+                ctx.count("group.astronomic_cases");
+            }
+        }
+    }
     let (max_n, max_changes, nrand) = match ctx.tier {
         Tier::Quick => (2, 2, 3000),
         Tier::Thorough => (4, 3, 60000),
